@@ -14,7 +14,7 @@ from ..refmodel import RefModel, sym_equal
 from . import _session_common as sc
 
 PROP = "C10"
-BUDGET = {"quick": 900, "thorough": 25000}
+BUDGET = {"quick": 1200, "thorough": 25000}
 ALARM_S = 900
 RULE = ("seeded transition-only models (every process a between-state transition; numeric, integer or symbolic magnitudes; "
         "multi-transition events; all routes): 50% stochastic paths exact / tau-leap on natural and adversarially scripted "
